@@ -39,6 +39,11 @@ PRELUDE = '''#include <cstdio>
 #define UT(...) au::AssociatedUnitT<std::decay_t<decltype(__VA_ARGS__)>>
 using au::pow;
 using au::root;
+// OriginOf<U>::value(): ZERO, or a quantity (count, unit) -- printed as "<count>|<magnitude of its unit>"
+inline void print_origin(au::Zero) { printf("0|-"); }
+template <typename OU, typename R> void print_origin(au::Quantity<OU, R> q) {
+    printf("%%.25Lg|%%s", static_cast<long double>(q.in(OU{})), vser::mag_str<OU>().c_str());
+}
 '''
 
 
@@ -115,7 +120,7 @@ def order_table(wd, rng, A, trees, tier):
         if s in seen:
             continue
         seen.add(s)
-        sample.append((k, a["cxx_type"], a["dim"], a["mag"]))
+        sample.append((k, a["cxx_type"], a["dim"], a["mag"], ("atom", k)))
     # generated units from this run's trees: scaled / powered / compound types
     extra = []
     for case in trees:
@@ -125,7 +130,7 @@ def order_table(wd, rng, A, trees, tier):
         if t[0] == "atom" or s in seen:
             continue
         seen.add(s)
-        extra.append((uexpr.show(t), f"UT({uexpr.cxx(t, A, 'unit')})", d, m))
+        extra.append((uexpr.show(t), f"UT({uexpr.cxx(t, A, 'unit')})", d, m, t))
     rng.shuffle(extra)
     limit = 80 if tier == "quick" else 200
     sample = sample[:limit]
@@ -135,7 +140,7 @@ def order_table(wd, rng, A, trees, tier):
     inc = "\n".join(f'#include "{h}"' for h in A.headers())
     with open(src, "w") as f:
         f.write(PRELUDE % (inc, os.path.join(aulib.HARNESS_INC, "serialize.hh")))
-        for i, (_, ty, _d, _m) in enumerate(sample):
+        for i, (_, ty, _d, _m, _t) in enumerate(sample):
             f.write(f"using S{i} = {ty};\n")
         f.write("template <typename A> void row(int i) {\n  printf(\"R %d \", i);\n")
         for j in range(n):
@@ -150,10 +155,17 @@ def order_table(wd, rng, A, trees, tier):
             f.write(f"  putchar(au::InStandardPackOrder<au::detail::MagT<A>, au::detail::MagT<S{j}>>::value ? '1' : '0');\n")
         # two sampled expressions can denote one and the same type (products cancel: (Bars / W) * W is Bars); such a pair
         # is one unit, not two, and is merged below
+        # the remaining inputs of the ordering: the unit's origin and its avoidance class
+        f.write("  putchar('\\n');\n  printf(\"O %d %d \", i, int(au::detail::UnitAvoidance<A>::value));\n"
+                "  print_origin(au::detail::OriginOf<A>::value());\n")
         f.write("  putchar('\\n');\n  printf(\"I %d \", i);\n")
         for j in range(n):
             f.write(f"  putchar(std::is_same<A, S{j}>::value ? '1' : '0');\n")
-        f.write("  putchar('\\n');\n}\nint main() {\n")
+        f.write("  putchar('\\n');\n}\n")
+        f.write("template <typename A> void atom_row(int id) {\n  printf(\"A %d %d \", id, int(au::detail::UnitAvoidance<A>::value));\n"
+                "  print_origin(au::detail::OriginOf<A>::value());\n  putchar('\\n');\n}\nint main() {\n")
+        for k, a in A.atoms.items():
+            f.write(f"  atom_row<{a['cxx_type']}>({a['id']});\n")
         for i in range(n):
             f.write(f"  row<S{i}>({i});\n")
         f.write("  return 0;\n}\n")
@@ -165,7 +177,18 @@ def order_table(wd, rng, A, trees, tier):
     rows = [None] * n
     KEYROWS["D"], KEYROWS["M"] = [None] * n, [None] * n
     same = [None] * n
+    KEYROWS["O"] = [None] * n
+    KEYROWS["A"] = {}
     for line in o.split("\n"):
+        if line.startswith("A "):
+            _, i, av, org = line.split()
+            KEYROWS["A"][int(i)] = (int(av),) + tuple(org.split("|"))
+            continue
+        if line.startswith("O "):
+            _, i, av, org = line.split()
+            cnt, omag = org.split("|")
+            KEYROWS["O"][int(i)] = (int(av), cnt, omag)
+            continue
         if line.startswith("R "):
             _, i, bits = line.split()
             rows[int(i)] = bits
@@ -183,6 +206,7 @@ def order_table(wd, rng, A, trees, tier):
             rows = [pick(rows[i]) for i in keep]
             for k in ("D", "M"):
                 KEYROWS[k] = [pick(KEYROWS[k][i]) for i in keep]
+            KEYROWS["O"] = [KEYROWS["O"][i] for i in keep]
     return sample, rows, ""
 
 
@@ -373,6 +397,73 @@ def main(tier, seed):
                                            "class": "corr-packorder", "rec": {"kind": "packorder", "a": sample[i][0], "b": sample[j][0], "key": which}})
         order_stats["pack_order_pairs"] = 2 * n_ * n_
         order_stats["pack_order_mismatches"] = bad
+    # the WHOLE unit ordering against its model (AuModel.UnitOrder: the six keys of InOrderFor<UnitProduct>, transcribed): every
+    # sampled expression is evaluated by the model with the model's order, then every ordered pair is compared with the headers
+    if rows is not None and all(KEYROWS.get("O") or [None]) and KEYROWS.get("A"):
+        def origin_pos(cnt, omag):
+            v = Fraction(cnt)                                    # the count printed with %.25Lg (integers in the library)
+            for b, e in aulib.parse_pack(omag).items():
+                e = Fraction(e)
+                if b == "pi" or e.denominator != 1:
+                    return None
+                v *= Fraction(int(b[1:])) ** int(e)
+            return v
+        ainfo = {}
+        for aid, (av, cnt, omag) in KEYROWS["A"].items():
+            try:
+                ainfo[aid] = (av, origin_pos(cnt, omag))
+            except (ValueError, ZeroDivisionError):
+                ainfo[aid] = (av, None)
+
+        def sexpr_o(t):
+            k = t[0]
+            if k == "atom":
+                a = A.atoms[t[1]]
+                av, op = ainfo[a["id"]]
+                if op is None:
+                    raise KeyError(t[1])
+                return (f"( no {a['id']} {aulib.pack_str(a['dim'], 'dim')} {aulib.pack_str(a['mag'], 'mag')} "
+                        f"{op.numerator}/{op.denominator} {av} )")
+            if k in ("mul", "div"):
+                return f"( {k} {sexpr_o(t[1])} {sexpr_o(t[2])} )"
+            if k == "pow":
+                q = Fraction(t[2])
+                return f"( pow {sexpr_o(t[1])} {q.numerator}/{q.denominator} )"
+            if k == "scale":
+                m = {b: Fraction(e) for b, e in t[2][0].items()}
+                return f"( scale {sexpr_o(t[1])} {aulib.pack_str(m, 'mag')} )"
+            raise ValueError(k)
+        try:
+            oreq = "unitorder " + " ; ".join(sexpr_o(smp[4]) for smp in sample)
+        except KeyError:
+            oreq = None
+        if oreq:
+            oans = drv.ask([oreq])[0]
+            n_ = len(sample)
+            if oans.startswith("bad-op") or " av=" not in oans:
+                violations.append({"what": "the model could not evaluate the unit-order request", "class": "corr-unitorder", "no_input": True,
+                                   "broken": "correspondence: U.libLt (driver rejected the request)", "rec": {"kind": "unitorder", "answer": oans[:200]}})
+            else:
+                body, avs = oans.split(" av=")
+                mrows = body.split()
+                mav = [int(x) for x in avs.split(",")]
+                bad = 0
+                for i in range(n_):
+                    if mav[i] != KEYROWS["O"][i][0]:
+                        bad += 1
+                        if bad <= 3:
+                            violations.append({"what": f"UnitAvoidance<{sample[i][0]}> is {KEYROWS['O'][i][0]}, the model says {mav[i]}",
+                                               "class": "corr-unitorder", "rec": {"kind": "avoidance", "unit": sample[i][0]}})
+                    for j in range(n_):
+                        if mrows[i][j] != rows[i][j]:
+                            bad += 1
+                            if bad <= 3:
+                                violations.append({"what": f"InOrderFor<UnitProduct, {sample[i][0]}, {sample[j][0]}> is {rows[i][j]}, the model of the "
+                                                           f"library's unit order (U.libLt) says {mrows[i][j]}",
+                                                   "class": "corr-unitorder", "rec": {"kind": "unitorder", "a": sample[i][0], "b": sample[j][0],
+                                                                                      "impl": rows[i][j], "model": mrows[i][j]}})
+                order_stats["unit_order_pairs"] = n_ * n_
+                order_stats["unit_order_mismatches"] = bad
     req = []
     for c in cases:
         req.append("unit " + uexpr.sexpr(c["tree"], A))
